@@ -28,8 +28,6 @@ TOLERATED = {
         "a failed mapping falls back to plain writes on the same temp file",
     ("content::write::make_mmap", "memmap2::MmapMut::map_mut", "matched-and-dropped"):
         "a failed mapping falls back to plain writes on the same temp file (after giving back the pre-allocated space)",
-    ("content::read::has_content_async", "std::fs::metadata", "is_ok"):
-        "exists-style predicate: the public API returns bool",
     ("content::write::AsyncWriter::close", "futures::futures_channel::oneshot::Sender::<T>::send", "unused"):
         "send fails only if the receiver is gone, i.e. the caller dropped the close() future",
 }
@@ -276,6 +274,20 @@ def check_config(cfg, w, rep):
                         norm_callee(t.callee.path), short(lf.path)))
                     continue
                 kind = discard_kind(prog, b, blk, t)
+                # a secondary operation on a path that can only end in the function's own failure: the caller is told
+                # about a failure anyway, so nothing goes unreported (e.g. best-effort cleanup before returning Err)
+                if b is lf.body:
+                    reach = prog.cfg(b).reachable(blk.i)
+                    rds = [rd for rd in ret_defs(prog, b) if rd.blk in reach]
+                    if rds and all(rd.cls == "failure" for rd in rds):
+                        rep.ob(cfg, "R1-failure-path", key, "`%s` discards the result of `%s` only on a path whose every return is already an error" % (
+                            short(lf.path), norm_callee(t.callee.path)))
+                        continue
+                if norm_callee(t.callee.path) in ("std::fs::metadata", "std::fs::symlink_metadata") and kind in ("is_ok", "is_err"):
+                    # metadata(p).is_ok() is Path::exists() spelled out (that is how std implements it): a predicate, not
+                    # an operation whose failure the caller must hear about
+                    rep.ob(cfg, "R1-existence-probe", key, "`%s` uses metadata().%s() as an existence probe" % (short(lf.path), kind))
+                    continue
                 tk = (short(lf.path), norm_callee(t.callee.path), kind)
                 if tk in TOLERATED:
                     n_tol += 1
